@@ -150,6 +150,10 @@ func c10In(kind string, seq int) *wire.TxIn {
 	case "sig-op0":
 		o := c10ExtOutPoint(6 + seq)
 		return wire.NewTxIn(&o, []byte{0x00, 0x51})
+	case "null-sig-K1": // shaped like a coinbase input (all-zero hash, index 0xffffffff) whose script pushes the watched key
+		return wire.NewTxIn(&wire.OutPoint{Index: 0xffffffff}, append(push([]byte{0x30, 0x01}), push(c10K1)...))
+	case "null-plain": // the null outpoint with an unrelated script
+		return wire.NewTxIn(&wire.OutPoint{Index: 0xffffffff}, []byte{0x51})
 	case "sig-pd4-BIG":
 		o := c10ExtOutPoint(8 + seq)
 		return wire.NewTxIn(&o, append([]byte{0x4e, 0x00, 0x00, 0x01, 0x00}, c10Big...))
@@ -232,6 +236,8 @@ func c10EvalTx(w *mc.W, cas c10Tx) {
 	case "K1+BIG":
 		model.Insert(c10K1)
 		model.Insert(c10Big)
+	case "NULLOP": // the null outpoint itself is watched
+		model.Insert(ref.OutPointBytes(chainhash.Hash{}, 0xffffffff))
 	}
 	msg := wire.NewMsgFilterLoad(model.Bytes(), k, 0x5eed, wire.BloomUpdateType(cas.Flags))
 	f := bloom.LoadFilter(msg)
@@ -621,7 +627,25 @@ func runC10(c *mc.Ctx) {
 				}
 			}
 		}
-		c.Space("wide transactions (257, 300, 65537 outputs, one watched)", int64(len(wide)))
+		// the input side: n inputs of which only one (at a high index) spends the watched outpoint or
+		// pushes the watched key in its signature script
+		for _, n := range []int{257, 300, 65537} {
+			for _, at := range []int{n - 1, 256, n / 2} {
+				for _, kind := range []string{"spend-E1", "sig-K1"} {
+					ins := make([]string, n)
+					for i := range ins {
+						ins[i] = "spend-E0"
+					}
+					ins[at] = kind
+					content := "E1"
+					if kind == "sig-K1" {
+						content = "K1"
+					}
+					wide = append(wide, c10Tx{Content: content, Outs: []string{"p2pkh-H2"}, Ins: ins, Flags: 1, Geom: "mid"})
+				}
+			}
+		}
+		c.Space("wide transactions (257, 300, 65537 outputs or inputs, one watched)", int64(len(wide)))
 		c.ParFor(int64(len(wide)), func(w *mc.W, i int64) {
 			w.State()
 			c10EvalTx(w, wide[i])
@@ -666,7 +690,17 @@ func runC10(c *mc.Ctx) {
 				}
 			}
 		}
-		c.Space("single transactions with multisig outputs of 1, 3, 15, 16, 17 keys and OP_PUSHDATA1/2/4 pushes (incl. 65535/65536-byte elements)", int64(len(xs)))
+		// transactions shaped like a coinbase (one input, null outpoint): matched like any other
+		for _, ins := range [][]string{{"null-sig-K1"}, {"null-plain"}, {"null-sig-K1", "spend-E0"}, {"spend-E0", "null-plain"}} {
+			for _, content := range []string{"none", "K1", "NULLOP", "txid", "E1"} {
+				for _, outs := range [][]string{{"p2pkh-H2"}, {"p2pk-K1"}, {}} {
+					for fl := 0; fl < 3; fl++ {
+						xs = append(xs, c10Tx{Content: content, Outs: outs, Ins: ins, Flags: fl, Geom: "mid"})
+					}
+				}
+			}
+		}
+		c.Space("single transactions with multisig outputs of 1, 3, 15, 16, 17 keys, OP_PUSHDATA1/2/4 pushes (incl. 65535/65536-byte elements) and coinbase-shaped inputs", int64(len(xs)))
 		c.ParFor(int64(len(xs)), func(w *mc.W, i int64) {
 			w.State()
 			c10EvalTx(w, xs[i])
